@@ -3,7 +3,7 @@
    with parse_message on the decoded tree, 8 zone options).  Each conversion is written once in the model; the theorems
    state them.  The whole-message statement "exactly one Trip per distinct descriptor, fields of its own entity" is
    C07_own_entity_wins / C07_bare_only (Properties/C07.v) together with these per-field conversions. *)
-From GV Require Import Base.Prelude Model.RtTypes Model.RtWire Model.Realtime Proofs.RealtimeProofs Proofs.MergeProofs Proofs.MentionProofs Gen.Enums Gen.NyctTables.
+From GV Require Import Base.Prelude Model.RtTypes Model.RtWire Model.Realtime Proofs.RealtimeProofs Proofs.MergeProofs Proofs.MentionProofs Gen.Enums Gen.NyctTables Gen.Footprint.
 
 (* HH:MM:SS becomes that duration (ns), for every two-digit H, M, S - hours past 24 included *)
 Theorem C02_start_time : forall h m s, 0 <= h < 100 -> 0 <= m < 100 -> 0 <= s < 100 ->
@@ -62,3 +62,9 @@ Print Assumptions C02_trips_are_the_mentioned.
 Theorem C02_one_trip_per_descriptor : forall cm tz cfg m, NoDup (map tr_key (rt_trips (parse_message cm tz cfg m))).
 Proof. exact trip_ids_unique. Qed.
 Print Assumptions C02_one_trip_per_descriptor.
+
+(* tie to the source: the two patterns the descriptor parser matches with, as they stand in realtime.go now (parse_start_time /
+   parse_start_date of the model implement exactly these languages) *)
+Example C02_regex_sources : alookup "startTimeRegex" regex_sources = Some "^([0-9]{2}):([0-9]{2}):([0-9]{2})$" /\
+                            alookup "startDateRegex" regex_sources = Some "^([0-9]{4})([0-9]{2})([0-9]{2})$".
+Proof. split; reflexivity. Qed.
